@@ -12,6 +12,18 @@ pub(crate) use super::sync::verif_harness as psync;
 #[cfg(feature = "sync")]
 pub(crate) use super::sync::PolicyProcessor;
 
+#[cfg(feature = "async")]
+pub(crate) use super::r#async::verif_harness as pasync;
+#[cfg(feature = "async")]
+pub(crate) use super::r#async::PolicyProcessor as AsyncPolicyProcessor;
+
+/// the shared policy state, as `PolicyInner::with_hasher` + `collect_metrics` build it
+pub(crate) fn inner_from(admit: TinyLFU, costs: SampledLFU<HS>, metrics: Arc<Metrics>) -> Arc<Mutex<PolicyInner<HS>>> {
+    let mut costs = costs;
+    costs.metrics = metrics;
+    Arc::new(Mutex::new(PolicyInner { admit, costs }))
+}
+
 /// SampledLFU holding exactly the given entries (I-P holds by construction)
 pub(crate) fn slfu_from(ents: [Option<(u64, i64)>; 3], max_cost: i64) -> SampledLFU<HS> {
     SampledLFU {
